@@ -236,6 +236,11 @@ func TestC10(t *testing.T) {
 			lay = gen.RandomLayout{T: rt, Comments: true, Conts: true, Linebreaks: true}
 		}
 		src := gen.Render(p.Stream, lay).Src
+		if _, _, err := parser.ParseCommands(nil, "c10", src); err != nil {
+			// the quantifier ranges over accepted programs
+			st.Class("program_not_accepted_skipped")
+			return
+		}
 		enumerate(rt, src, true)
 		st.Sample(map[string]any{"src": src, "faults": "every rune index, both reader kinds"})
 		featStats(st, p)
